@@ -1225,7 +1225,6 @@ udp_ep_init(
 	ep->tx_ring.descs =
 	    NNI_ALLOC_STRUCTS(ep->tx_ring.descs, NNG_UDP_TXQUEUE_LEN);
 	if (ep->tx_ring.descs == NULL) {
-		NNI_FREE_STRUCT(ep);
 		return (NNG_ENOMEM);
 	}
 	ep->tx_ring.size = NNG_UDP_TXQUEUE_LEN;
@@ -1250,8 +1249,7 @@ udp_ep_init(
 	ep->rcvmax           = NNG_UDP_RECVMAX;
 	ep->copymax          = NNG_UDP_COPYMAX;
 	ep->max_peers        = NNG_UDP_MAX_PEERS;
-	if ((rv = nni_msg_alloc(&ep->rx_payload, ep->rcvmax) != 0)) {
-		NNI_FREE_STRUCTS(ep->tx_ring.descs, NNG_UDP_TXQUEUE_LEN);
+	if ((rv = nni_msg_alloc(&ep->rx_payload, ep->rcvmax)) != 0) {
 		return (rv);
 	}
 
